@@ -6,6 +6,7 @@ import warnings
 import numpy
 
 from .agents import walk_diff as W
+from . import timeouts as _T
 
 
 def _spell(items, style):
@@ -73,7 +74,7 @@ def extra_run(ctx, res):
         ta = f"register r[{W.NQ}]\n{a}\n"
         tb = f"register r[{W.NQ}]\n{b}\n"
         case = {"explicit": ta, "subcircuit": tb}
-        signal.alarm(20)
+        signal.alarm(_T.limit(2))
         try:
             ca = R["parse"](ta, inject_pulses=R["GI"], autoload_pulses=False)
             cb = R["parse"](tb, inject_pulses=R["GI"], autoload_pulses=False)
@@ -89,7 +90,8 @@ def extra_run(ctx, res):
             ok = [(x.subcircuit.index, x.as_int) for x in pa.readouts] == [(x.subcircuit.index, x.as_int) for x in pb.readouts]
             res.oracle_case("subcircuit_output_parsed_like_prepare_measure", ok, case, "parse_jaqal_output_list differs between the two spellings")
         except W.Hang:
-            res.oracle_case("terminates", False, case, "no result within 20 s")
+            _T.saw_hang()
+            res.oracle_case("terminates", False, case, "no result within the time limit")
         except R["JaqalError"] as e:
             res.oracle_case("subcircuit_runs_like_prepare_measure", False, case, f"JaqalError: {e}")
         finally:
